@@ -395,6 +395,13 @@ impl System for Sys {
                 for k in 0..8usize {
                     acts.push(Act { op: o.clone(), faults: vec![(k, FaultKind::Generic)] });
                 }
+                // two consecutive calls failing (a failed request followed by a failed look-up of its effect): in every tier,
+                // for the operations on an existing service
+                if !self.pair_faults && self.faults_used == 0 && matches!(o, Op::Start { .. } | Op::Stop { .. } | Op::Remove { .. }) {
+                    for k in 0..6usize {
+                        acts.push(Act { op: o.clone(), faults: vec![(k, FaultKind::Generic), (k + 1, FaultKind::Generic)] });
+                    }
+                }
                 if self.pair_faults && self.faults_used + 2 <= self.max_faults {
                     for k in 0..7usize {
                         for l in (k + 1)..8usize {
